@@ -201,6 +201,16 @@ func runC15With(c c15Case, strict bool, schemaForType func(interface{}) (avro.Sc
 	if (err1 == nil) != (err2 == nil) {
 		return nt, labels, fmt.Errorf("SchemaForType(T) and SchemaForType(*T) disagree: %v vs %v", err1, err2)
 	}
+	// a typed nil pointer names the type just as well
+	s0, err0 := schemaForType(reflect.Zero(reflect.PointerTo(typ)).Interface())
+	if (err0 == nil) != (err1 == nil) {
+		return nt, labels, fmt.Errorf("SchemaForType(T{}) and SchemaForType((*T)(nil)) disagree: %v vs %v", err1, err0)
+	}
+	if err0 == nil {
+		if d := fromLib(s0).Diff(fromLib(s1), ""); d != "" {
+			return nt, labels, fmt.Errorf("SchemaForType((*T)(nil)) gives a different schema: %s", d)
+		}
+	}
 	mustErr := ts.Contains(func(t spec.TypeSpec) bool { return unsupportedKinds[t.K] })
 	mayErr := ts.Contains(func(t spec.TypeSpec) bool { return undocumentedKinds[t.K] })
 	if err1 != nil {
